@@ -24,7 +24,7 @@ def bounds(tier):
     if tier == "quick":
         return ("num_jobs in {1,2,3,(1,2),(2,3)}, num_machines in {1,2,3,(1,2),(2,3)} with jobs x machines <= 9 (<= 4 with recirculation or "
                 "flexible machines); machines_per_operation in {1,2,(1,2)}; both flags both ways; duration range (1,99) symbolic; 2 instances per "
-                "generator; iteration_limit 2; explicit generate(num_jobs, num_machines) arguments; every RNG outcome")
+                "generator; iteration_limit 2; explicit generate(num_jobs, num_machines) arguments, both or only one of them (7 configurations); every RNG outcome")
     return "quick with jobs x machines <= 9 (<= 6 with recirculation / flexible), 3 instances per generator, iteration_limit 3"
 
 
@@ -65,6 +65,8 @@ def subspaces(tier):
             out.append(dict(num_jobs=nj, num_machines=nm, mpo=1, less=True, recirc=False, mode="iter", n=2))
         out.append(dict(num_jobs=nj, num_machines=nm, mpo=1, less=True, recirc=False, mode="iter", n=1))
         out.append(dict(num_jobs=nj, num_machines=nm, mpo=1, less=False, recirc=False, mode="explicit", n=1))
+    for nj, nm, less in (([1, 2], 2, True), ([1, 3], [1, 2], False), ([2, 3], [2, 3], False), ([1, 2], [1, 3], True)):
+        out.append(dict(num_jobs=nj, num_machines=nm, mpo=1, less=less, recirc=False, mode="explicit", n=1))
     limit = 3000 if tier == "quick" else 12000
     return [sp for sp in out if outcomes(sp) ** (sp["n"] * (2 if sp["mode"] == "iter" else 1)) <= limit]
 
@@ -270,13 +272,41 @@ def _harness(eng, sp):
             eng.observe("n", len(got))
         else:
             g = make(sp, None)
+            variant = eng.choice(3, "explicit-variant")
+            jl, jh = _minv(sp["num_jobs"]), _maxv(sp["num_jobs"])
+            ml, mh = _minv(sp["num_machines"]), _maxv(sp["num_machines"])
+            if variant == 1:
+                # only the machine count is given: the job count is drawn; an instance that IS returned must meet every clause
+                km = ml + eng.choice(mh - ml + 1, "explicit-num_machines")
+                try:
+                    inst = g.generate(num_machines=km)
+                except ValidationError:
+                    if sp["less"] or jl >= km:
+                        eng.fail("C19/explicit-num_machines-rejected-although-satisfiable", f"num_machines={km}")
+                    return
+                eng.reachable("transition")
+                if any(len(j) != km for j in inst.jobs):
+                    eng.fail("C19/explicit-arguments-ignored", f"num_machines={km}: {[len(j) for j in inst.jobs]}")
+                check_instance(eng, sp, inst)
+                eng.observe("n", len(inst.jobs))
+                return
+            if variant == 2:
+                # only the job count is given: the machine count is drawn
+                kj = jl + eng.choice(jh - jl + 1, "explicit-num_jobs")
+                inst = g.generate(num_jobs=kj)
+                eng.reachable("transition")
+                if len(inst.jobs) != kj:
+                    eng.fail("C19/explicit-arguments-ignored", f"num_jobs={kj}: {len(inst.jobs)}")
+                check_instance(eng, sp, inst)
+                eng.observe("n", len(inst.jobs))
+                return
             nj, nm = _maxv(sp["num_jobs"]), _minv(sp["num_machines"])
             inst = g.generate(num_jobs=nj, num_machines=nm)
             eng.reachable("transition")
             if len(inst.jobs) != nj or any(len(j) != nm for j in inst.jobs):
                 eng.fail("C19/explicit-arguments-ignored", f"{len(inst.jobs)}x{[len(j) for j in inst.jobs]}")
             check_instance(eng, sp, inst)
-            if nj < nm + 1:
+            if nj < nm + 1 and not sp["less"]:
                 try:
                     g.generate(num_jobs=nm, num_machines=nm + 1)
                     eng.fail("C19/explicit-fewer-jobs-than-machines-accepted-although-disallowed")
